@@ -228,8 +228,12 @@ theorem fillData_rows {good : UInt8 → Bool} {parse : Bytes → Nat → Nat →
         rw [hpc] at heq
         simp only [Except.bind] at heq
         refine ⟨cs ++ [ck], rs ++ [rk], ?_, ?_, ?_⟩
-        · rw [List.range_succ, List.mapM_append, hcs]
-          simp [List.mapM_cons, cslice k (by omega), hpc, bind, Except.bind, pure, Except.pure]
+        · have hsl := cslice k (by omega)
+          have hk1 : (do let ab ← threadSlice mem size nthread k
+                         parse mem ab.1 ab.2 : Res Container) = .ok ck := by
+            rw [hsl]; exact hpc
+          rw [List.range_succ, List.mapM_append, hcs, List.mapM_cons, hk1]
+          rfl
         · rw [List.mapM_append, hrs]
           simp [List.mapM_cons, heq, bind, Except.bind, pure, Except.pure]
         · rw [hrc, hflat]; simp
